@@ -45,8 +45,9 @@ META = {
                  "recipes regenerated from the live exporter each run; driver correspondence of operator "
                  "/ JAX semantics against ORT / eager JAX; ORT-vs-JAX exploration of all plugin testcases",
     "level_text": "Kernel-checked: dispatch_compositional, lowered_outputs_correct, bind_returned_correct, "
-                  "fixed_eq_ideal_of_noOverflow, onnxRound_eq_jaxRoundEven (+ refuted AWAY_FROM_ZERO with "
-                  "witness, roundAwayFix_correct), onnxArgMax/ArgMin_eq_jax, onnxCumSum_eq_jaxCumsum, "
+                  "fixed_eq_ideal_of_noOverflow, onnxRound_eq_jaxRoundEven, roundAwayFix_correct (lax.round "
+                  "AWAY_FROM_ZERO, repaired in /repo 3e0a3fd, is proved at full strength on the regenerated "
+                  "recipe), onnxArgMax/ArgMin_eq_jax, onnxCumSum_eq_jaxCumsum, "
                   "oneHot_agree_partial (+ refutation), and one theorem per catalogue entry (≈75 regenerated "
                   "recipes: integer div/rem/floor_divide/mod/sign/abs/neg/max/min/clamp/clip/integer_pow, "
                   "comparisons, select_n, boolean and bitwise ops, shifts, conversions, round/floor/ceil, "
